@@ -210,7 +210,9 @@ def write_evidence(rep, spec, exit_violations):
           'assumptions': spec.get('assumptions', []),
           'wall_s': round(wall, 2), 'violations': exit_violations}
     evdir = os.path.join(core.VERIF_DIR, 'evidence')
-    if os.path.realpath(core.REPO) != '/repo':
+    if os.environ.get('VERIF_EVIDENCE_DIR'):
+        evdir = os.environ['VERIF_EVIDENCE_DIR']     # sweeps that must not touch the committed evidence
+    elif os.path.realpath(core.REPO) != '/repo':
         # sensitivity runs against a scratch copy never overwrite the evidence of the real tree
         evdir = os.environ.get('VERIF_EVIDENCE_DIR') or os.path.join(core.REPO, '.verif-evidence')
     path = os.path.join(evdir, f'{rep.prop}.json')
